@@ -303,3 +303,45 @@ def _(ctx):
     ctx.record('outcomes', PROVED if seen == {'Mass_basis', 'Gauge_basis', 'reject'} else FAILED, 'B', 0, 'outcomes reached: %s' % sorted(seen))
 _c04.make_flag_contract('C16')
 _c04.make_flag_contract('C16', cls='THDM_problems', file='src/THDM/THDM_problems.cpp', sectors=['hh', 'Ah', 'Hm'], tag='thdm_flag_tachyon', replay=None)
+
+# "tachyonic states ... flagged" for the THDM Higgs sectors: a tachyon is flagged on exactly the paths on which SOME eigenvalue of the sector is negative -- whichever index it has in
+# the solver's order (ascending |w|: a light tachyon comes first) -- and the stored masses are sqrt(|w_i|)
+def make_thdm_tachyon(nm, arr):
+    from contracts.c08 import linalg_hermitian_stub, clamp_stub
+    from gm2v.values import Mat as _Mat
+    TME = 'src/THDM/THDM_mass_eigenstates.cpp'
+    @obligation('C16.thdm.tachyon.%s' % nm, fns=[(TME, 'THDM_mass_eigenstates::calculate_M' + nm)])
+    def ob(ctx, nm=nm, arr=arr):
+        """for ANY symmetric 2x2 mass matrix (eigen-solver by A-LINALG: eigenvalues ordered by |w|): the sector is flagged on exactly the paths on which some eigenvalue is negative
+        (flag name = sector name), and the stored masses are sqrt(|w_i|) >= 0 in the solver's order"""
+        a, b, c = ctx.reals('m00 m01 m11')
+        flagged = []
+        it = Interp(ctx.w, mode='sym')
+        M = _Mat(2, 2, [[a, b], [b, c]], 'matrix', False)
+        it.stubs.update({'fs_diagonalize_hermitian': linalg_hermitian_stub, 'normalize_to_interval': clamp_stub,
+                         'THDM_mass_eigenstates::get_mass_matrix_' + nm: lambda i, ar, t: M,
+                         '::flag_tachyon': lambda i, ar, t: flagged.append(ar[0])})
+        m = it.new_object('THDM')
+        def run():
+            del flagged[:]
+            it.call('calculate_M' + nm, [], this=m)
+            return (m.f[arr].copy(), list(flagged))
+        paths = it.run_paths(run)
+        ctx.merge_rules(it)
+        ctx.assume_note('A-LINALG: fs_diagonalize_hermitian(m,w,z): z orthogonal, z m z^T = diag(w), |w0|<=|w1|')
+        if len(paths) < 2:
+            ctx.record('paths', ERROR, 'B', 0, 'expected a flagging and a non-flagging path, got %d' % len(paths))
+        az = lambda t: z3.If(t >= 0, t, -t)
+        for k, (sym, (Ms, fl), exc) in enumerate(paths):
+            W = [z3.Real('eig%d_w%d' % (sym.linalg_k, i)) for i in range(2)]
+            anyneg = z3.Or(W[0] < 0, W[1] < 0)
+            ctx.prove('path%d.flag_iff_negative' % k, sym.pc, anyneg if fl else z3.Not(anyneg), check_vacuity=False,
+                      pins=[{'eig%d_w0' % sym.linalg_k: x, 'eig%d_w1' % sym.linalg_k: y} for x, y in [(1, -2), (-1, 2), (-1, -2), (1, 2)]])
+            ctx.record('path%d.flag_name' % k, PROVED if (not fl or fl == [nm]) else FAILED, 'B', 0, 'flag_tachyon arguments: %s' % (fl,))
+            sq = [a_ for a_ in sym.axioms if 'sqrt' in str(a_)]
+            ctx.prove('path%d.masses' % k, sym.pc + sq, z3.And(*[z3.And(z3real(Ms.get(i)) >= 0, z3real(Ms.get(i)) * z3real(Ms.get(i)) == az(W[i])) for i in range(2)]),
+                      check_vacuity=False, tactics=('nlsat', 'default'))
+    return ob
+
+for _nm, _arr in (('hh', 'Mhh'), ('Ah', 'MAh'), ('Hm', 'MHm')):
+    make_thdm_tachyon(_nm, _arr)
